@@ -35,13 +35,19 @@ var staleCallerTabled = map[string]string{
 // staleAtCallers decides an unexported reader at its call sites: each passes a receiver whose form
 // is known finite there, or uses the result for nothing but the capacity of a buffer.
 func staleAtCallers(m *model.Model, fn *ssa.Function) (ok bool, why string, nsites int) {
+	return staleAtCallersOf(m, fn, 0, 3)
+}
+
+// staleAtCallersOf: parameter k of fn is finite at every call site; a caller that merely passes
+// one of its own parameters on (usubOrdered(x, y) -> x.ucmp(y)) is decided at its callers in turn.
+func staleAtCallersOf(m *model.Model, fn *ssa.Function, k int, depth int) (ok bool, why string, nsites int) {
 	var reasons []string
 	for _, c := range m.Funcs {
 		var fin map[int]map[ssa.Instruction]bool
 		for _, b := range c.Blocks {
 			for _, ins := range b.Instrs {
 				call, isCall := ins.(*ssa.Call)
-				if !isCall || call.Call.StaticCallee() != fn || len(call.Call.Args) == 0 {
+				if !isCall || call.Call.StaticCallee() != fn || len(call.Call.Args) <= k {
 					continue
 				}
 				nsites++
@@ -54,7 +60,8 @@ func staleAtCallers(m *model.Model, fn *ssa.Function) (ok bool, why string, nsit
 					continue
 				}
 				decided := false
-				ref := m.RefOf(call.Call.Args[0])
+				ref := m.RefOf(call.Call.Args[k])
+				passed := -1
 				for j := range c.Params {
 					if !ref.OnlyParam(j) {
 						continue
@@ -67,6 +74,13 @@ func staleAtCallers(m *model.Model, fn *ssa.Function) (ok bool, why string, nsit
 					}
 					if fin[j][ins] {
 						decided = true
+					}
+					passed = j
+				}
+				if !decided && passed >= 0 && depth > 0 && !m.IsExported(c) {
+					if ok2, why2, n2 := staleAtCallersOf(m, c, passed, depth-1); ok2 && n2 > 0 {
+						reasons = append(reasons, "through "+m.FuncName(c)+": "+why2)
+						continue
 					}
 				}
 				if !decided {
